@@ -62,6 +62,7 @@ func runC04(rt *rapid.T, st *stats.Collector) {
 		badItem = Item{Kind: "raw", Raw: append([]byte{ref.ServerDataCode, 0}, rapid.SliceOfN(rapid.Byte(), 1, 30).Draw(rt, "garbage")...)}
 	}
 	surplus := rapid.IntRange(1, 3).Draw(rt, "surplus")
+	chainLen := rapid.IntRange(1, 8).Draw(rt, "exception-chain-length")
 	insertAt := rapid.IntRange(0, 6).Draw(rt, "fault-position")
 
 	g := newGatedRun(rt, sc, func(g *gatedRun) []simnet.Step {
@@ -82,7 +83,11 @@ func runC04(rt *rapid.T, st *stats.Collector) {
 			}
 		case "exception-anytime", "write-error+exception":
 			// The whole script is one exception that may arrive at any moment.
-			steps = []simnet.Step{itemStep(Item{Kind: "exception", Exc: []ref.Exception{{Code: 60, Name: "DB::Exception", Message: "boom"}, {Code: 1, Name: "n"}}}, nil, 0, nil)}
+			chain := []ref.Exception{{Code: 60, Name: "DB::Exception", Message: "boom"}}
+			for i := 1; i < chainLen; i++ {
+				chain = append(chain, ref.Exception{Code: int32(i), Name: "nested", Message: fmt.Sprintf("cause %d", i)})
+			}
+			steps = []simnet.Step{itemStep(Item{Kind: "exception", Exc: chain}, nil, 0, nil)}
 		case "exception-cut":
 			// An exception packet that is cut off in the middle (the transport dies while the server reports an error).
 			full := Item{Kind: "exception", Exc: []ref.Exception{{Code: 241, Name: "DB::Exception", Message: "Memory limit exceeded", Stack: "stack"}, {Code: 1, Name: "n", Message: "m"}}}.Encode(54460, 0)
@@ -115,6 +120,8 @@ func runC04(rt *rapid.T, st *stats.Collector) {
 	wbase := len(g.e.conn.WrittenBytes())
 	if fault == "write-error" || fault == "write-error+exception" {
 		g.e.conn.FailWritesAfter(wbase + writeErrAfter)
+		// the failing write is either a reset or a blocked write cut by its deadline after a partial write
+		g.e.conn.WriteErrTimeout = rapid.Bool().Draw(rt, "write-fails-with-timeout")
 	}
 	if rapid.IntRange(0, 3).Draw(rt, "close-returns-error") == 0 {
 		// The transport closes but reports an error from Close (e.g. TLS close_notify on a cut link).
